@@ -99,9 +99,10 @@ def parse_netstrings(data, count=None):
     return out, pos
 
 
-def read_packed(data, writekey=None):
+def read_packed(data, writekey=None, strict=True):
     """Independent reader of the directory format: list of
-    (name_utf8, ro_field, rwcapdata, rw_plain or None, metadata_bytes)."""
+    (name_utf8, ro_field, rwcapdata, rw_plain or None, metadata_bytes).
+    strict: assert the documented shape of the write-cap field (callers turn the AssertionError into an oracle failure)."""
     entries, pos = parse_netstrings(data)
     assert pos == len(data)
     out = []
@@ -113,10 +114,39 @@ def read_packed(data, writekey=None):
             salt, ct, mac = rwc[:16], rwc[16:-32], rwc[-32:]
             key = rwcap_key(salt, writekey)
             rw = aes_ctr(key, ct)
-            assert len(rwc) >= 48, "rwcapdata shorter than salt+mac"
-            assert mac == hmac_sha256_tahoe(key, salt + ct), "rwcapdata MAC"
-            assert salt == rwcap_salt(rw), "salt is not H(rwcap)"
+            if strict:
+                assert len(rwc) >= 48, "rwcapdata shorter than salt+mac"
+                assert mac == hmac_sha256_tahoe(key, salt + ct), "rwcapdata MAC"
+                assert salt == rwcap_salt(rw), "salt is not H(rwcap)"
         out.append((name, ro, rwc, rw, md))
+    return out
+
+
+def xor_bytes(a, b):
+    n = min(len(a), len(b))
+    return bytes(x ^ y for x, y in zip(a[:n], b[:n]))
+
+
+def sibling_recovery(data, truth):
+    """The attacker of C18: holds the directory plaintext `data` (what a read cap decrypts) and knows the write cap of
+    ONE child; truth = {name_utf8: write cap} is used to pick that child and to recognise a success.  Returns a list of
+    (known_name, victim_name, recovered_prefix, why) -- empty when every entry is encrypted under its own keystream."""
+    out = []
+    ents = [(name, rwc[:16], rwc[16:-32]) for (name, ro, rwc, _, md) in read_packed(data) if len(rwc) > 48 and name in truth]
+    for (ni, salt_i, ct_i) in ents:
+        rw_i = truth[ni]
+        if len(rw_i) != len(ct_i):
+            continue
+        ks = xor_bytes(ct_i, rw_i)                 # keystream of entry i, from the one known write cap
+        for (nj, salt_j, ct_j) in ents:
+            rw_j = truth[nj]
+            if nj == ni or rw_j == rw_i:
+                continue
+            cand = xor_bytes(ct_j, ks)
+            if len(cand) >= 8 and cand == rw_j[:len(cand)]:
+                out.append((ni, nj, cand, "XOR with the known sibling's keystream"))
+            elif salt_i == salt_j:
+                out.append((ni, nj, b"", "two different write caps stored under the same salt (same AES-CTR key and keystream)"))
     return out
 
 
